@@ -69,6 +69,10 @@ type deriver struct {
 	scopeVars map[int][]*interp.Struct
 }
 
+// RealRegistry, when set (by the engine that interprets the registry), builds the Registry value that
+// registry.New(".", moqPkg) returns for the abstract source package (example.test/src, package srcpkg).
+var RealRegistry func(prog *load.Program, moqPkg string) (*interp.Struct, error)
+
 // RenameMark is the token the probe derivation appends to a variable's name each time a later AddVar of
 // the same scope could have renamed it.
 const RenameMark = "ʳ"
@@ -443,6 +447,20 @@ func (d *deriver) run(formatter string) (*Derived, error) {
 	// loading the package and parsing the template are replaced by the abstract registry and template)
 	_ = tMocker
 	d.m.Ext[load.PkgRegistry+".New"] = func(m *interp.Machine, pos token.Pos, recv interp.Value, args []interp.Value) (interp.Value, error) {
+		// the registry's exported API is modelled, but a refactoring may add exported getters of what New
+		// precomputes (the destination, the package name): the fields of the value are therefore those
+		// the real registry.New computes for this source package and -pkg value, when that can be had
+		if RealRegistry != nil && len(args) == 2 {
+			if mp, ok := args[1].(*interp.Sym); ok {
+				if moqPkg, conc := mp.Concrete(); conc {
+					if real, err := RealRegistry(prog, moqPkg); err == nil && real != nil && real.Type != nil && types.Identical(real.Type, reg.Type) {
+						for k, v := range real.Fields {
+							reg.Fields[k] = v
+						}
+					}
+				}
+			}
+		}
 		return interp.Tuple{&interp.Ptr{Elem: reg}, interp.NilV{}}, nil
 	}
 	d.m.Ext[load.PkgTemplate+".New"] = func(m *interp.Machine, pos token.Pos, recv interp.Value, args []interp.Value) (interp.Value, error) {
